@@ -15,7 +15,8 @@ CFG = dict(
          "quarter-step float grid x n in 0..8 plus 600 random tenth-step requests with n up to 12; "
          "full n in 0..8 x 6 values (incl. NaN); every collector entry point (collect_vec1, "
          "collect_trusted_vec1, collect_vec1_with_len, Vec1::collect_from_iter/_from_trusted/_with_len, "
-         "collect_trusted_to_vec) on item sequences of length 0..6 from 9 kinds of source iterator; "
+         "collect_trusted_to_vec) on item sequences of length 0..6 from 9 kinds of source iterator, items i64, f64 "
+         "(NaN passes through) and String (heap-owning: a misplaced raw write or double drop would crash); "
          "collect_vec1_opt on every null mask of length 0..5 (f64 and Option<i32>); try_collect_vec1 / "
          "try_collect_trusted_vec1 / try_collect_from_trusted / try_collect_trusted_to_vec on EVERY error "
          "pattern of length 0..6 (distinct error numbers, a pull counter on the source); write_trust_iter "
